@@ -217,6 +217,22 @@ def catalogue(big=False):
                                 call("INNER", binds={"x": split(ref("DATA", "xs")), "skip": split(ref("FLAGS", "skips"))}, mode="array")],
                                {"o": ref("INNER", "y")})], "TOP", {}))
 
+    # 8g'. a sub-pipeline inside the mapped pipeline is disabled by the element's flag; a stage in it
+    #      takes only constants, so that the inherited condition alone ties it to the mapped call
+    for nm, flags in (("dis_split_flag_const", [True, False, False]), ("dis_split_flag_const_all", [True, True])):
+        P.append(program(nm, [],
+                         [stage("FLAGS", "", "bool[] skips", {"skips": const(flags)}),
+                          stage("DATA", "", "int[] xs", {"xs": const([10, 20, 30][:len(flags)])}), S_echo("WORK"), S_echo("K")],
+                         [pipeline("INNER", "int x", "",
+                                   [call("WORK", binds={"x": self_("x")}),
+                                    call("K", binds={"x": lit(5)})], {}),
+                          pipeline("MID", "int x, bool skip", "",
+                                   [call("INNER", binds={"x": self_("x")}, dis=self_("skip"))], {}),
+                          pipeline("TOP", "", "",
+                                   [call("FLAGS"), call("DATA"),
+                                    call("MID", binds={"x": split(ref("DATA", "xs")), "skip": split(ref("FLAGS", "skips"))}, mode="array")],
+                                   {})], "TOP", {}))
+
     # 8h. the same, the mapped pipeline returning the output of the conditionally disabled call
     P.append(program("dis_split_flag_out", [],
                      [stage("FLAGS", "", "bool[] skips", {"skips": const([True, False])}),
